@@ -88,7 +88,7 @@ func roundTrip(kind string, cs *Case, q1 *contactql.ContactQuery, o *obs) []Prob
 	t2 := rp.tree
 	if d := diff(t1, t2); d != "" {
 		return []Problem{{
-			Key:  fmt.Sprintf("%s:reparse-differs:%s:%s", kind, d, feature(s, worstValue(vals))),
+			Key:  fmt.Sprintf("%s:reparse-differs:%s:%s", kind, d, feature(s, differingValue(t1, t2, worstValue(vals)))),
 			What: fmt.Sprintf("(%s) query %q parses to %s\nit formats as %q, which parses to the different query %s", cs.Cfg, cs.Query, t1, s, t2),
 		}}
 	}
@@ -189,7 +189,7 @@ func checkConstructed(cs *Case, o *obs) []Problem {
 	o.outcome = "constructed:" + got.shape()
 	if d := diff(want, got); d != "" {
 		return []Problem{{
-			Key:  fmt.Sprintf("constructed:reparse-differs:%s:%s", d, feature(s, focus)),
+			Key:  fmt.Sprintf("constructed:reparse-differs:%s:%s", d, feature(s, differingValue(want, got, focus))),
 			What: fmt.Sprintf("(%s) the constructed query %s\nformats as %q, which parses to %s", cs.Cfg, cs.Tree, s, got),
 		}}
 	}
@@ -268,6 +268,8 @@ func checkSubstituted(kind string, cs *Case, text string, tpl template, v, w str
 		delta := d
 		if d == "structure" {
 			delta = condDelta(want, got)
+		} else {
+			focus = differingValue(want, got, focus)
 		}
 		return []Problem{{
 			Key:  fmt.Sprintf("%s:template-meaning-changed:%s:%s", kind, delta, feature(text, focus)),
@@ -275,6 +277,21 @@ func checkSubstituted(kind string, cs *Case, text string, tpl template, v, w str
 		}}
 	}
 	return nil
+}
+
+// differingValue returns the value of the first condition that came out different (same shape
+// assumed), so that the key's character classes describe the literal that was altered.
+func differingValue(want, got *Node, fallback string) string {
+	wc, gc := want.conds(nil), got.conds(nil)
+	if len(wc) != len(gc) {
+		return fallback
+	}
+	for i := range wc {
+		if wc[i].PT != gc[i].PT || wc[i].Key != gc[i].Key || wc[i].Oper != gc[i].Oper || wc[i].Val != gc[i].Val {
+			return wc[i].Val
+		}
+	}
+	return fallback
 }
 
 func check(cs *Case, o *obs) []Problem {
